@@ -110,9 +110,11 @@ CLAIMED = {
              "is_exec / is_readonly vs mode() over all 512 rwx values. Tree-level theorems over the mirror (Memfs/ChmodFacts.v): chown sets the "
              "requested ids on exactly the entries its traversal yields and changes nothing else; chmod, whatever it returns, changes nothing but "
              "mode fields and only of entries its traversal names; without follow, chown succeeds in every well-formed state and sets the ids "
-             "of exactly the argument (recursive: everything at or below it), nothing else (from C08's exactness theorem). Partial: for chmod, and "
-             "for chown with follow, which entries the traversal yields is C08's subject, and that each named entry's mode becomes exactly the "
-             "grammar's value is decided at tree level by the enumeration and the judge; the Stdfs side runs under C02.",
+             "of exactly the argument (recursive: everything at or below it), nothing else (from C08's exactness theorem); chmod without follow, "
+             "recursive or not, is exact as well (Memfs/ChmodExact.v): when the grammar yields a non-zero value for every entry, every non-link "
+             "entry at or below the argument carries exactly the grammar's value for its kind afterwards and nothing else changes. Partial: "
+             "chmod / chown WITH follow at tree level (which entries the traversal yields through links) is decided by the enumeration and the "
+             "judge; the Stdfs side runs under C02.",
         note="Trusted: Coq kernel; hooks sys::verif::{sym_mode, memfs_entry, memfs_snapshot}; tools/walkspec.py + c_mem.py sym_spec as the independent "
              "statement; KF-C11-octal-zero recorded; extraction, driver, harness, differ.",
         technique="Coq proof (state machine = clause fold) + exhaustive expression correspondence + model-guided BFS judged on pre/post snapshots",
